@@ -179,10 +179,9 @@ def tokPath (h : Heap α) : Nat → Nat → List Nat
     then: is `g` of the copy's level `d-1` group the ORIGINAL's innermost group / the COPY's innermost group;
     then: does `as_list()` of the original change when `'z'` is appended to the copy's innermost group reached through
     the tokens / reached through the name `g`. -/
-def deepShare (d : Nat) : List Bool :=
+def deepShareOf (d : Nat) (r : Heap String × Nat) : List Bool :=
   let h := chainHeap d
   let o := 3 * d + 2
-  let r := deepcopyN d h o
   let po := tokPath h d o
   let pc := tokPath r.1 d r.2
   let same := List.zipWith (fun a b => decide (a = b)) po pc
@@ -197,6 +196,15 @@ def deepShare (d : Nat) : List Bool :=
   let viaName := match gv with
     | some n => decide (asListN (d + 2) (mutate r.1 n (.append (.atom "z"))) o ≠ before)
     | none => false
-  same ++ [decide (gv = po.getLast? ∧ gv.isSome), decide (gv = pc.getLast? ∧ gv.isSome), viaTok, viaName]
+  same ++ [decide (gv = po.getLast? ∧ gv.isSome), decide (gv = pc.getLast? ∧ gv.isSome), viaTok, viaName,
+           decide (asListN (d + 2) r.1 r.2 = before)]
+
+/-- `kind` = "deepcopy" (`ParseResults.deepcopy()`, `deepcopyN`) or "copy.deepcopy" / "pickle" (`copyModuleDeep`);
+    the last entry: the copy's `as_list()` is the original's -/
+def deepShare (kind : String) (d : Nat) : Option (List Bool) :=
+  if kind = "deepcopy" then some (deepShareOf d (deepcopyN d (chainHeap d) (3 * d + 2)))
+  else if kind = "copy.deepcopy" ∨ kind = "pickle" then
+    some (deepShareOf d (copyModuleDeep (d + 2) (chainHeap d) (3 * d + 2)))
+  else none
 
 end PP.PRHeap
